@@ -563,6 +563,9 @@ pub enum Wait {
     Continue(u32),
     /// additionally wait until this many complete final responses have been written
     Responses(u32),
+    /// additionally wait until the bytes delivered but not yet read by the server are fewer than
+    /// this (the peer's TCP send window)
+    InboxBelow(u32),
 }
 
 #[derive(Clone, Debug, Serialize, Deserialize, PartialEq, Eq)]
